@@ -178,11 +178,77 @@ def cubes_interleave(tier, seed):
     return out
 
 
-HARNESSES = {'interleave': {'fn': run_interleave, 'cubes': cubes_interleave}}
-REQUIRED_COVER = ['op:' + o for o in OPS] + ['interleave:done']
+def run_forced(ctx, kind, file0, where):
+    """The service's reload hook re-reads the files whatever their times say:
+    load, edit the file WITHOUT its modification time advancing (two writes
+    in one tick of a coarse clock, a tool that preserves times), forced
+    load, then any further plain loads / enforcement calls -- the policy is
+    that of an enforcer that loads the current files once."""
+    import os
+    common.set_ctx(ctx)
+    shared = _shared(kind)
+    snap0 = repr(_snap(shared))
+    env = common.PolicyEnv()
+    try:
+        end = bool(ctx.bool('end'))
+        pf = 'policy.yaml' if where == 'main' else 'policy.d/over.yaml'
+        env.write(pf, FILES[file0])
+        enf = env.enforcer(defaults=shared, enforce_new_defaults=end)
+        enf.load_rules()
+        if bool(ctx.bool('enforced_before')):
+            enf.enforce('a', {}, {'roles': ['x']})
+        p = env.path(pf)
+        times = {q: os.stat(q) for q in (p, os.path.dirname(p))}
+        nxt = (file0 + 1 + int(ctx.index('next', 2))) % len(FILES)
+        env.write(pf, FILES[nxt])
+        for q, st in times.items():
+            os.utime(q, (st.st_atime, st.st_mtime))
+        enf.load_rules(force_reload=True)
+        tail = ctx.choice('then', ['nothing', 'load', 'enforce',
+                                   'enforce-load'])
+        if 'enforce' in str(tail):
+            enf.enforce('a', {}, {'roles': ['x']})
+        if 'load' in str(tail):
+            enf.load_rules()
+        ref = env.enforcer(defaults=_shared(kind), enforce_new_defaults=end)
+        ref.load_rules()
+        detail = {'kind': kind, 'file_before': file0, 'file_after': nxt,
+                  'where': where, 'then': str(tail),
+                  'enforce_new_defaults': end}
+        ctx.observe('row', detail)
+        a, b = str(enf.rules), str(ref.rules)
+        ctx.require(a == b, 'forced:policy-differs-from-loaded-once',
+                    detail=dict(detail, got=a[:600], want=b[:600]))
+        ctx.require(repr(_snap(shared)) == snap0,
+                    'forced:shared-objects-mutated', detail=detail)
+        roles = ['x', 'y', 'z', 'b', 'b_old', 'c', 'c2', 'd', 'd_old', 'ov',
+                 'ov2']
+        creds = {'roles': ctx.roles('creds', roles)}
+        for name in ('a', 'c', 'zz'):
+            x = common.decision(ctx, enf, name, creds)
+            y = common.decision(ctx, ref, name, creds)
+            ctx.observe(name, x)
+            ctx.require_equiv(x, y, 'forced:decision-differs-from-loaded-'
+                              'once', detail=dict(detail, name=name))
+        ctx.cover('forced:done')
+    finally:
+        env.close()
+
+
+def cubes_forced(tier, seed):
+    return [{'kind': kind, 'file0': f0, 'where': w}
+            for kind in ('plain', 'nested') for f0 in range(len(FILES))
+            for w in ('main', 'dir')]
+
+
+HARNESSES = {'interleave': {'fn': run_interleave, 'cubes': cubes_interleave},
+             'forced': {'fn': run_forced, 'cubes': cubes_forced}}
+REQUIRED_COVER = ['op:' + o for o in OPS] + ['interleave:done', 'forced:done']
 
 
 def cube_weight(h, p):
+    if h == 'forced':
+        return 1000
     return (4 * p['nenf']) ** p['k'] * 6 ** p['nenf']
 
 
@@ -196,7 +262,13 @@ def evidence(tier):
                    'symbolic enforce_new_defaults, one of %d override files, '
                    'main file present or not' % (
                        '3-4' if q else '3-6', OPS, 2 if q else 3,
-                       len(FILES))},
+                       len(FILES)),
+                   'forced': 'load, an edit of the main file or the '
+                   'policy.d file that leaves every modification time as it '
+                   'was (2 next contents), forced load, then {nothing, load, '
+                   'enforce, enforce+load}: policy and decisions equal those '
+                   'of an enforcer that loads the current files once; plain '
+                   'and nested-deprecated defaults x 3 starting files'},
         'symbols': ['op<i>: Int (enforcer x operation)', 'end<e>, '
                     'mainfile<e>: Bool', 'creds.<role>: Bool'],
         'stubs': ['real files / oslo.config'],
